@@ -1074,6 +1074,9 @@ class Engine:
         raise Unsupported('starred expression here', e)
 
     def e_Call(self, e, fr):
+        if isinstance(e.func, ast.Name) and e.func.id == 'cast' and len(e.args) == 2 and not e.keywords:
+            self.report.dropped.add('typing.cast(T, x) read as x')
+            return self.eval(e.args[1], fr)       # typing.cast: the type expression is dropped
         f = self.eval(e.func, fr)
         args = []
         for a in e.args:
@@ -1265,6 +1268,14 @@ class Engine:
     def assign(self, t, v, fr):
         if isinstance(t, ast.Name):
             # assignment to a closure variable without nonlocal creates a local: Python semantics
+            if t.id in fr.env.get('__nonlocal__', ()):
+                f2 = fr.parent
+                while f2 is not None and t.id not in f2.env:
+                    f2 = f2.parent
+                if f2 is None:
+                    raise Unsupported('nonlocal %s not found' % t.id, t)
+                f2.env[t.id] = v
+                return
             fr.env[t.id] = v
         elif isinstance(t, ast.Attribute):
             o = self.eval(t.value, fr)
@@ -1351,7 +1362,7 @@ class Engine:
         raise Unsupported('global statement', st)
 
     def s_Nonlocal(self, st, fr):
-        raise Unsupported('nonlocal statement', st)
+        fr.env.setdefault('__nonlocal__', set()).update(st.names)
 
     def s_FunctionDef(self, st, fr):
         q = (fr.qualname or fr.module.name) + '.<locals>.' + st.name
